@@ -92,10 +92,12 @@ fn run_inner<const B: usize, const L: usize>(p: &[&str]) -> String {
         return h(&x);
     }
     match op {
-        "bit" | "byte" | "cbyte" => {
+        "bit" | "bitidx" | "byte" | "cbyte" => {
             let i = usize::from_str_radix(p[3], 16).unwrap();
             return match op {
                 "bit" => b(U::<B, L>::bit(&a, i)).to_string(),
+                // the `Index<usize>` operator of the `Bits` wrapper: documented as `bit(i)` (false beyond BITS, at ANY index)
+                "bitidx" => b(ruint::Bits::<B, L>::from(a)[i]).to_string(),
                 "byte" => format!("{:x}", U::<B, L>::byte(&a, i)),
                 _ => match U::<B, L>::checked_byte(&a, i) {
                     Some(v) => format!("some {v:x}"),
